@@ -46,7 +46,7 @@ T = {
          'Coq algebraic-law proofs + cases.v correspondence + integer norm oracle along random routes'),
  'C11': ('structure of qr/svd/eigh/solve (bond index, directions, charge identity, no overwrite, validity) and reconstruction at every coordinate incl. the fermionic '
          'versions, over LAPACK oracles stated as Section hypotheses; reconstruction / orthonormality / triangularity checked numerically on the implementation',
-         'Coq proof over oracle contracts + structural correspondence with stub oracles + numerical oracle'),
+         'Coq proof over translated source (qr/svd/eigh/solve and fermionic wrappers: Gen/LinalgGen.v equal to the model for every oracle) with LAPACK contracts as hypotheses + structural correspondence with stub oracles + numerical oracle'),
  'C12': ('the block-sparse factors densify to a decomposition of the dense matrix given the per-block LAPACK contract (eigen / singular pairs, solve, norm); partial: '
          'uniqueness of spectra is not formalised; spectra compared with numpy on the dense matrix',
          'Coq proof over oracle contracts (partial) + numpy oracle on own dense embedding'),
